@@ -97,6 +97,11 @@ v('C07', 'fire', KA, 'cho_solve((L, True), HP', 'cho_solve((L, False), HP')
 v('C07', 'fire', KA, 'S = HP @ H.T + R', 'S = HP @ H.T')
 v('C07 C19', 'fire', KA, 'K = cho_solve((L, True), HP, overwrite_b=True).T', 'K = cho_solve((L, True), P, overwrite_b=True).T')
 v('C07', 'silent', KA, 'U = np.eye(len(x)) - K.dot(H)', 'U = np.identity(len(x)) - K @ H')
+v('C15 C01', 'fire', 'strapdown.py', 'dt = np.diff(imu.index).reshape(-1, 1)', 'dt = np.round(np.diff(imu.index), 6).reshape(-1, 1)', 'seeded C15 round 2: sampling intervals rounded to the microsecond')
+v('C17 C05', 'fire', 'error_model.py', 'result[:, 2, 1] = -sin[:, 2] * sin[:, 1] / cos[:, 1]', 'result[:, 2, 1] = -sin[:, 2] * sin[:, 1] / cos[:, 0]', 'seeded C17 round 2: heading-error entry divides by cos(roll)')
+v('C13 C02', 'fire', K, '        lla[j + 1, 2] = lla[j, 2] - V3 * dt', '        if with_altitude:\n            lla[j + 1, 2] = lla[j, 2] - V3 * dt\n        else:\n            lla[j + 1, 2] = lla[0, 2]', 'seeded C13 round 2: frozen altitude taken from row 0 of the buffer')
+v('C13', 'silent', K, '        lla[j + 1, 2] = lla[j, 2] - V3 * dt', '        if with_altitude:\n            lla[j + 1, 2] = lla[j, 2] - V3 * dt\n        else:\n            lla[j + 1, 2] = lla[j, 2]', 'explicit copy of the current altitude')
+v('C12 C14', 'fire', 'inertial_sensor.py', ['        self.transform = np.identity(3)\n        self.bias = np.zeros(3)\n\n    @staticmethod', '    def reset_estimates(self):\n        self.transform = np.identity(3)\n        self.bias = np.zeros(3)'], ['        self._nominal_transform = np.identity(3)\n        self._nominal_bias = np.zeros(3)\n        self.reset_estimates()\n\n    @staticmethod', '    def reset_estimates(self):\n        self.transform = self._nominal_transform\n        self.bias = self._nominal_bias'], 'seeded C12 round 2: reset aliases arrays that update_estimates mutates in place')
 T_ = 'transform.py'
 v('C16', 'fire', T_, 'a4 = 2.5 * a2', 'a4 = 2.0 * a2', 'Olson series constant')
 v('C16', 'fire', T_, 'a3 = a1 * e2 / 2', 'a3 = a1 * e2 / 3', 'Olson series constant')
